@@ -139,20 +139,50 @@ pub fn names() -> Vec<Vec<u8>> {
         b"Mqtt".to_vec(),
         b"MQISDP".to_vec(),
         b"mqisdp".to_vec(),
-        b"MQT".to_vec(),
-        b"MQIsd".to_vec(),
-        b"MQTTT".to_vec(),
-        b"MQIsdpp".to_vec(),
-        b"MQTT\0".to_vec(),
-        b" MQTT".to_vec(),
         b"".to_vec(),
         b"M".to_vec(),
         vec![b'Q'; 1024],
         "MQT\u{e9}".as_bytes().to_vec(),
-        vec![0xFF, b'Q', b'T', b'T'],
-        vec![b'M', b'Q', b'T', 0xC3],
         vec![0xED, 0xA0, 0x80, b'T'],
+        b"MQTTMQTT".to_vec(),
+        b"MQTTMQIsdp".to_vec(),
+        b"MQIsdpMQTT".to_vec(),
     ];
+    // every single-edit neighbour of the two legal names: insertion, deletion and replacement at
+    // every position, and NUL / space padding on either side up to 8 and 16 bytes
+    for base in [&b"MQTT"[..], &b"MQIsdp"[..]] {
+        for pos in 0..=base.len() {
+            for c in [0x00u8, b' ', b'M', b'T', b'p', b'x', 0xFF, 0xC3] {
+                let mut n = base.to_vec();
+                n.insert(pos, c);
+                v.push(n);
+            }
+        }
+        for pos in 0..base.len() {
+            let mut n = base.to_vec();
+            n.remove(pos);
+            v.push(n);
+            for c in [0x00u8, base[pos] ^ 0x20, 0xFF, base[pos].wrapping_add(1)] {
+                let mut n = base.to_vec();
+                n[pos] = c;
+                v.push(n);
+            }
+        }
+        for pad in [0x00u8, b' '] {
+            for k in [1usize, 2, 3, 4, 8 - base.len().min(8), 16 - base.len()] {
+                if k == 0 {
+                    continue;
+                }
+                let mut n = vec![pad; k];
+                n.extend_from_slice(base);
+                v.push(n);
+                let mut n = base.to_vec();
+                n.extend(std::iter::repeat(pad).take(k));
+                v.push(n);
+            }
+        }
+    }
+    v.sort();
     v.dedup();
     v
 }
